@@ -3,6 +3,7 @@ package absint
 import (
 	"fmt"
 	"math/bits"
+	"strings"
 )
 
 // Ops bundles the transfer functions; it needs the interner to create atoms for
@@ -67,11 +68,27 @@ func (o Ops) And(a, b *Int) *Int {
 		lin = a.Lin
 	} else if covers(a, b) {
 		lin = b.Lin
+	} else if k, ok := lowMask(b, w); ok && !a.Lin.IsConst() {
+		// x & (2^k-1) is x reduced modulo 2^k, read back at the full width: the same
+		// quantity whatever the width x was computed in
+		lin = o.Convert(o.Convert(a, k, false, false), w, false, false).Lin
+	} else if k, ok := lowMask(a, w); ok && !b.Lin.IsConst() {
+		lin = o.Convert(o.Convert(b, k, false, false), w, false, false).Lin
 	} else {
 		x, y := commKey(a, b)
 		lin = o.opaque("and", w, hi, x, y)
 	}
 	return o.mk(w, a.Signed, bv, 0, hi, lin)
+}
+
+// lowMask: v is the constant 2^k-1 with 0 < k < w.
+func lowMask(v *Int, w int) (int, bool) {
+	c, ok := v.IsConst()
+	if !ok || c == 0 || (c+1)&c != 0 {
+		return 0, false
+	}
+	k := bits.Len64(c)
+	return k, k < w
 }
 
 // covers reports whether m is known to be 1 on every bit position where x may be
@@ -362,6 +379,10 @@ func (o Ops) Convert(a *Int, w int, fromSigned, toSigned bool) *Int {
 		lin := linTrunc(a.Lin, w)
 		// (x & m) narrowed to w bits is x narrowed when m keeps all of the low w bits
 		if len(a.Lin.T) == 1 && a.Lin.C == 0 && a.Lin.T[0].K == 1 {
+			// narrowing a zero-extended N-bit quantity to w <= N bits is narrowing the quantity
+			if at := a.Lin.T[0].A; strings.HasPrefix(at.Op, "zext") && len(at.Args) == 1 && at.Args[0].W >= w {
+				lin = linTrunc(at.Args[0], w)
+			}
 			if at := a.Lin.T[0].A; at.Op == "and" && len(at.Args) == 2 {
 				for i := 0; i < 2; i++ {
 					if c, other := at.Args[i], at.Args[1-i]; c.IsConst() && c.C&m == m && other.W >= w {
